@@ -5,6 +5,7 @@ CONSTANTS
   Objects = {"o1"}
   Contents = {"shallow"}
   Ops = {"Check","Example","GetAST","Len","Used","OpenAPI"}
+  Registers = TRUE
   MaxCalls = 3
 INVARIANTS TypeOK Emit
 PROPERTIES FrozenRegsStable
